@@ -261,9 +261,12 @@ class History:
         if ent.states:
             h = sorted(ent.states)[0]
             ent.states[h].CoreData.Title = 'T%d' % self.counter
-        if self.rnd.random() < 0.5:
+        r = self.rnd.random()
+        if r < 0.4:
             st = ent.new_state()
             st.CoreData.Givenname = 'New%d' % self.counter
+        elif r < 0.7 and len(ent.states) > 1:
+            del ent.states[sorted(ent.states)[-1]]      # the entity drops one of its context states: deleted at commit
         with self.mdib.descriptor_transaction() as tr:
             tr.write_entity(ent)
         return [d.Handle]
